@@ -26,6 +26,7 @@ RULE = ("scenario = schema file state {valid, invalid schema, missing, torn, bit
         "by >=1 later instance, and the schema loaded and passed check_schema; distinct = distinct scenario digests")
 STATE_MEASURE = "hash of (schema state, tuple of per-instance model classifications, output mode, error-format kind)"
 REQUIRED_PROBES = ("instance_after_faulted_instance_processed", "short_reads_served", "fault:fs_torn",
+                   "fault:fs_trailing_garbage",
                    "fault:fs_bitflip", "fault:fs_enoent", "fault:fs_empty", "records_compared")
 COMPONENTS = {
     "real": ["jsonschema/cli.py (parse_args, run, _Outputter, formatters), validators, exceptions under /repo"],
@@ -74,6 +75,9 @@ def apply_fault(rng, good, kind):
         return good[:i] + rng.choice([b"\xff", b"\xc3", b"\xe2\x82", b"\x80"]) + good[i:]
     if kind == "fs_bom":
         return b"\xef\xbb\xbf" + good
+    if kind == "fs_trailing_garbage":
+        # a complete JSON document followed by something else: not a JSON document
+        return good + rng.choice([b"\n{}", b" x", b"\n[1, 2]\n", b",", b"\x00", b"}\n"])
     raise KeyError(kind)
 
 
@@ -131,7 +135,7 @@ def generate(rng, tier="quick"):
     n = rng.choice([0, 1, 2, 2, 3, 3, 4, 5, 6, 9])
     use_stdin = n == 0
     fault_kinds = [None] * 10 + ["fs_enoent", "fs_enoent", "fs_torn", "fs_torn", "fs_bitflip", "fs_bitflip",
-                                 "fs_empty", "fs_bad_utf8", "fs_bom"]
+                                 "fs_empty", "fs_bad_utf8", "fs_bom", "fs_trailing_garbage", "fs_trailing_garbage"]
     if rng.random() < 0.1:
         fault_kinds += ["fs_eisdir", "fs_eacces", "fs_eio_on_read"]
     if rng.random() < 0.3:
@@ -141,6 +145,7 @@ def generate(rng, tier="quick"):
         val = world["instances"][i % len(world["instances"])]
         if rng.random() < 0.3:
             val = rng.choice([{}, [], {"a": 1}, "ab", 1, None, {"a": {"b": [1, "x"]}, "r": 5},
+                              1234567, -98765.4321, "a fairly long string value, longer than a chunk", [10, 200, 3000],
                               {"a": "{0} {x} {", "b": "100%s %d %", "c": ["}{", "{error.message}"]},
                               ["{file_name}", "%(x)s", {"a": "{}"}]])
         good = json.dumps(val, indent=rng.choice([None, None, 2])).encode("utf-8")
